@@ -224,6 +224,9 @@ func parseHeaderValueBlock(r io.Reader, streamId StreamId) (http.Header, uint32,
 		if err := binary.Read(r, binary.BigEndian, &length); err != nil {
 			return nil, 0, err
 		}
+		if length > MaxHeaderFieldLength {
+			return nil, 0, fmt.Errorf("HeaderValueBlock with invalid name length: %d", length)
+		}
 		headerLen += length
 		nameBytes := make([]byte, length)
 		if _, err := io.ReadFull(r, nameBytes); err != nil {
@@ -239,6 +242,9 @@ func parseHeaderValueBlock(r io.Reader, streamId StreamId) (http.Header, uint32,
 		}
 		if err := binary.Read(r, binary.BigEndian, &length); err != nil {
 			return nil, 0, err
+		}
+		if length > MaxHeaderFieldLength {
+			return nil, 0, fmt.Errorf("HeaderValueBlock with invalid value length: %d", length)
 		}
 		headerLen += length
 		value := make([]byte, length)
